@@ -11,11 +11,20 @@ Open Scope string_scope.
 (* In EVERY configuration with credentials configured, on every route that a served router can reach, BasicAuth is
    the first middleware that can answer or dispatch (only the pass-through wrappers AcceptEncoding/Cors/Logging may
    stand before it), no router value escapes the translator, and nothing but a tracked router is served.
-   A route on a router that does not inherit the chain (fresh mux.NewRouter() served separately) fails it. *)
+   A route on a router that does not inherit the chain (fresh mux.NewRouter() served separately) fails it.
+   The assembly includes the census of EVERY source file of the repository (all build tags): each http.Serve /
+   ListenAndServe / http.Server method / net.Listen / mux.NewRouter / http.NewServeMux / fasthttp / fiber / grpc site
+   that is not an interpreted operation of the tracked router is an OUnknown / OServeOther operation (assembly_ok false),
+   and http.DefaultServeMux -- where http.Handle, net/http/pprof and expvar register -- is served by nothing.
+   AcceptEncoding / Cors / Logging count as pass-through only if the translator found, in their source, that every
+   path through the handler calls next.ServeHTTP exactly once and nothing answers before it; otherwise they are
+   MwOther (may answer by themselves), which `guarded` rejects in front of BasicAuth. *)
 Theorem auth_first_everywhere : forall env : nat -> bool,
   (forall a, In a gen_must -> env a = true) ->
-  gen_credentials_atoms = true /\ assembly_ok (active env gen_assembly) = true.
-Proof. intros env H. split; [exact gen_has_credential_atoms | exact (proj1 (gen_ok env H))]. Qed.
+  gen_credentials_atoms = true /\ assembly_ok (active env gen_assembly) = true /\ gen_default_mux_served = false.
+Proof.
+  intros env H. split; [exact gen_has_credential_atoms | split; [exact (proj1 (gen_ok env H)) | exact gen_default_mux_not_served]].
+Qed.
 Print Assumptions auth_first_everywhere.
 
 (* For every configuration, every served root router, every login/password, every request (any method, path, Authorization bytes,
@@ -72,6 +81,36 @@ Theorem compression_cors_cannot_bypass :
 Proof. exact serve_reject. Qed.
 Print Assumptions compression_cors_cannot_bypass.
 
+(* CORS pre-flight and OPTIONS: a request WITHOUT an Authorization header (every browser pre-flight is one: OPTIONS +
+   Origin + Access-Control-Request-Method/-Headers, which the handler-side tag q_tag stands for) -- in every
+   configuration, for every method (OPTIONS included), path and Accept-Encoding: no handler runs, nothing is
+   gzip-buffered, and the answer is BasicAuth's own 401 challenge (WWW-Authenticate set) after pass-through wrappers
+   only, or the router's own 404/405 with NO middleware having run (so no CORS layer answered it either). *)
+Theorem preflight_cannot_bypass :
+  forall (env : nat -> bool) login pass other h root q,
+  (forall a, In a gen_must -> env a = true) ->
+  q_auth q = "" ->
+  let p := dispatch true login pass other h (active env gen_assembly) root q in
+  handler_ran p = false /\ p_gzip p = false /\
+  ((p_status p = 401%N /\ p_www p = true /\ exists pre, forallb transparent pre = true /\
+       p_trace p = (map EvNext pre ++ [EvReject 401%N])%list)
+   \/ ((p_status p = 404%N \/ p_status p = 405%N) /\ p_www p = false /\ p_trace p = [])).
+Proof.
+  intros env login pass other h root q H Ha.
+  exact (dispatch_no_header true login pass other h _ root q (proj1 (gen_ok env H)) Ha).
+Qed.
+Print Assumptions preflight_cannot_bypass.
+
+(* why only pass-through wrappers may stand before BasicAuth: a middleware that can answer by itself (say a CORS layer
+   answering "pre-flights" with 204) does so without BasicAuth ever seeing the request -- such a middleware is MwOther
+   in the assembly and `guarded` is false for a chain that has it in front of BasicAuth (example below). *)
+Theorem wrapper_that_answers_before_auth_bypasses :
+  forall ce login pass other h n rest q st, other n q = Some st ->
+  serve ce login pass other h (MwOther n :: rest) q =
+    {| p_status := st; p_www := false; p_gzip := false; p_cors := false; p_trace := [EvShort n st] |}.
+Proof. exact answering_wrapper_short_circuits. Qed.
+Print Assumptions wrapper_that_answers_before_auth_bypasses.
+
 (* wherever BasicAuth stands in a chain, the handler runs only after it accepted *)
 Theorem handler_only_behind_auth :
   forall ce login pass other h ch q,
@@ -99,6 +138,33 @@ Theorem colon_login_locks_out :
   forall ce login pass auth, has_char ":"%char login = true -> basic_auth_gen ce login pass auth <> VPass.
 Proof. exact colon_login_locks_out. Qed.
 Print Assumptions colon_login_locks_out.
+
+(* a password may contain ':' (SplitN cuts at the FIRST colon only): the header built from the credentials passes *)
+Theorem password_may_contain_colon :
+  forall login pass, has_char ":"%char login = false -> basic_auth login pass (basic_header login pass) = VPass.
+Proof. exact right_header_passes. Qed.
+Print Assumptions password_may_contain_colon.
+
+(* OBSERVATION (not a violation of C20, whose premise is "a login AND a password are configured"): with a login but an
+   EMPTY password (Mode "all", CORS off) main() installs no BasicAuth at all, so some reachable route -- in fact every
+   one -- runs its handler for any request whatsoever: the configuration fails OPEN. *)
+Theorem login_without_password_is_open :
+  let env := env_of_list gen_open_witness in
+  env gen_login_atom = true /\ env gen_pass_atom = false /\
+  exists rt, In rt (reachable_routes (active env gen_assembly)) /\
+    forall ce login pass other h q,
+      p_status (serve ce login pass other h (chain (active env gen_assembly) (rt_router rt)) q) = h q /\
+      In EvHandler (p_trace (serve ce login pass other h (chain (active env gen_assembly) (rt_router rt)) q)).
+Proof. exact gen_open_without_password. Qed.
+Print Assumptions login_without_password_is_open.
+
+(* ... whereas BasicAuthMiddleware itself, were it installed with an empty password, accepts exactly "login:" *)
+Theorem empty_password_accepts_exactly :
+  forall login auth, has_char ":"%char login = false ->
+  (basic_auth login "" auth = VPass <-> exact_credentials login "" auth = true) /\
+  basic_auth login "" (basic_header login "") = VPass /\ basic_auth login "" "" = VChallenge401.
+Proof. exact empty_password_exact. Qed.
+Print Assumptions empty_password_accepts_exactly.
 
 (* the base64 model decodes what the encoder writes, for every byte string (so the header built from the
    configured credentials is a complete valid text) *)
@@ -140,6 +206,17 @@ Example login_example : has_char ":"%char "admin" = false /\ basic_header "admin
 Proof. split; reflexivity. Qed.
 Example groups_example : groups3 ("user" ++ ":" ++ "pass") = true /\ b64_encode "user:pass" = "dXNlcjpwYXNz".
 Proof. split; reflexivity. Qed.
+Example answering_wrapper_not_guarded :
+  guarded [MwOther "Cors: not a pass-through wrapper"; BasicAuth; AcceptEncoding] = false /\
+  guarded [BasicAuth; MwOther "Cors: not a pass-through wrapper"] = true.
+Proof. split; reflexivity. Qed.
+Example colon_password_example : has_char ":"%char "s3cr:et" = true /\ basic_auth "admin" "s3cr:et" "Basic YWRtaW46czNjcjpldA==" = VPass.
+Proof. split; reflexivity. Qed.
+Example empty_password_example : basic_header "user" "" = "Basic dXNlcjo=" /\ basic_auth "user" "" "Basic dXNlcg==" = VDenied401.
+Proof. split; reflexivity. Qed.
+Example no_header_example :
+  q_auth {| q_method := "OPTIONS"; q_path := "/ready"; q_auth := ""; q_gzip := true; q_tag := 204 |} = "".
+Proof. reflexivity. Qed.
 Example fresh_router_fails :
   assembly_ok [ONewRouter 0; OUse 0 BasicAuth; ONewRouter 1;
                ORoute {| rt_router := 1; rt_prefix := false; rt_tpl := "/ready"; rt_methods := ["GET"]; rt_exact := true |};
